@@ -151,6 +151,7 @@ def run(ctx):
     mp = ctx.path("trace.ndjson")
     vlib.write_ndjson(mp, main)
     n = vlib.check_trace(ctx, "Trace_Json.tla", "Trace_Json.cfg", mp, sig_of, group_key=lambda e: True,
+                         selftest_filter=lambda e: e.get("e") == "val",   # "r" = reported offset / -1 ok: a result
                          timeout=3000, xmx="6g")
     if sur:
         sentinel = next(e for e in main if e["r"] == -1)
